@@ -238,8 +238,10 @@ def main():
 
     # ---- 4. report ---------------------------------------------------------------
     seen_known = {}
+    absorbed = {}
     for f in listed:
         seen_known.setdefault(f.finding, f)
+        absorbed[f.finding] = absorbed.get(f.finding, 0) + 1
     for fid, f in sorted(seen_known.items()):
         print(f'KNOWN-FINDING: property={prop} {fid}: {known[fid]["what"]}')
     stale = [fid for fid in known if fid not in seen_known and known[fid].get('expect_each_run')]
@@ -280,6 +282,9 @@ def main():
             'traces_validated_against_impl': ctx.traces,
             'distribution': dict(sorted(ctx.counters.items())),
             'known_findings_seen': sorted(seen_known), 'failing_input_search_ran': bool(searched),
+            # how many failing cases of this run each listed finding accounts for: the larger the number, the wider the
+            # region in which a new violation of the same kind would be read as the old one
+            'known_findings_absorbed': dict(sorted(absorbed.items())),
             'built': not a.no_build,
         },
         'assumptions': list(getattr(mod, 'ASSUMPTIONS', [])),
